@@ -21,7 +21,7 @@ ASSUMPTIONS = [
 ]
 
 LAYOUT_NAMES = {"S": "LAYOUT", "A": "LA", "B": "LB", "C": "LC", "D": "LD", "E": "LE",
-                "a": "x", "b": "y", "c": "z", "d": "v", "e": "w"}
+                "a": "x", "b": "y", "c": "z", "d": "v", "e": "w", "f": "u", "g": "t"}
 
 
 def layout_variant(gjson):
@@ -197,13 +197,24 @@ def strat_small(tier):
     return _cases(gen.cfgs(max_nts=3, max_alts=3, max_rhs=3))
 
 
+def strat_refused(tier):
+    @st.composite
+    def c(draw):
+        g = draw(gen.refused_merge_cfgs())
+        table = draw(st.sampled_from(["LALR", "LALR", "SLR"]))
+        if draw(st.integers(0, 3)) == 0:
+            return {"g": gen.CLASSICS["sss"], "lg": layout_variant(g), "table": table, "start": "layout"}
+        return {"g": g, "lg": None, "table": table, "start": "main"}
+    return c()
+
+
 def strat_medium(tier):
     return _cases(gen.cfgs(max_nts=6, max_alts=3, max_rhs=4, max_terms=5))
 
 
 def enum_tiny(tier):
     level = 1 if tier == "quick" else 2
-    stride = 7 if tier == "quick" else 1
+    stride = 2 if tier == "quick" else 1
 
     def it():
         for i, g in enumerate(gen.tiny_grammars(level)):
@@ -228,9 +239,11 @@ SUBCHECKS = [
     SubCheck("classics", run_case, enumerate=enum_classics, setup=_setup, shards={"quick": 4, "thorough": 4}),
     SubCheck("tiny-exhaustive", run_case, enumerate=enum_tiny, setup=_setup),
     SubCheck("small-random", run_case, strategy=strat_small, setup=_setup,
-             examples={"quick": 1600, "thorough": 30000}),
+             examples={"quick": 6400, "thorough": 100000}),
+    SubCheck("refused-merge-family", run_case, strategy=strat_refused, setup=_setup,
+             examples={"quick": 4800, "thorough": 60000}),
     SubCheck("medium-random", run_case, strategy=strat_medium, setup=_setup,
-             examples={"quick": 600, "thorough": 10000}),
+             examples={"quick": 3200, "thorough": 40000}),
 ]
 
 
